@@ -293,8 +293,19 @@ def infer_printed_type(t):
                         to_replaceT = t.var_T
                 find_to_replace(t.body)
             elif t.is_comb():
-                find_to_replace(t.fun)
-                find_to_replace(t.arg)
+                # The head of a prefix / infix operator application is printed
+                # as a symbol, which cannot carry a type annotation: the
+                # annotation has to go to one of the arguments.
+                from syntax import operator
+                op_data = operator.get_info_for_fun(t.head)
+                if op_data and t.head.is_const() and \
+                   ((op_data.arity == operator.BINARY and t.is_binop()) or
+                    (op_data.arity == operator.UNARY and len(t.args) == 1)):
+                    for arg in t.args:
+                        find_to_replace(arg)
+                else:
+                    find_to_replace(t.fun)
+                    find_to_replace(t.arg)
 
         find_to_replace(t)
         recover_const_type(t)
